@@ -55,6 +55,7 @@ def make_value(ex: Executor, st: State, spec, name: str, register_input=True):
     ctx = ex.ctx
     if isinstance(spec, tuple):
         return tuple(make_value(ex, st, s, f"{name}.{k}", register_input) for k, s in enumerate(spec))
+    name = ctx.sym_prefix + name if not name.startswith(ctx.sym_prefix) else name
     if spec.kind == "int":
         v = z3.Int(name)
     elif spec.kind == "real":
@@ -89,6 +90,17 @@ def make_value(ex: Executor, st: State, spec, name: str, register_input=True):
     if register_input:
         ctx.inputs[name] = v
     return v
+
+
+class Relational:
+    """mix-in marker: the contract states a 2-safety property, decided by self-composition on the real function
+    (DESIGN 2.6): the function is executed twice on inputs related by `relate`, `ensures_rel` relates the results"""
+
+    def relate(self, s1, s2):
+        return {}
+
+    def ensures_rel(self, s1, s2, r1, r2):
+        return {}
 
 
 class Contract:
@@ -297,7 +309,10 @@ class Registry(dict):
     def add(self, contract_cls):
         c = contract_cls() if isinstance(contract_cls, type) else contract_cls
         assert c.key, "contract without key"
-        self[c.key] = c
+        # several contracts may sit on one function (functional + relational): the extra ones carry a label
+        k = c.key if not getattr(c, "label", None) else f"{c.key}#{c.label}"
+        assert k not in self, f"duplicate contract {k}"
+        self[k] = c
         return contract_cls
 
 
@@ -322,12 +337,102 @@ class RunResult:
         self.source_file = None
 
 
+def _one_run(c, cfg_label, cfg, repo_src, registry, snapshot_root, prefix):
+    """one symbolic execution of the function under c (used twice by relational contracts)"""
+    short = c.key.split("::")[-1]
+    ctx = Ctx(repo_src, registry, func_label=getattr(c, "label", short), config_label=cfg_label)
+    ctx.current_contract = c
+    ctx.snapshot_root = snapshot_root
+    ctx.config = cfg
+    ctx.sym_prefix = prefix
+    ctx.uninterpreted = dict(getattr(c, "uninterpreted", {}) or {})
+    ctx.bounded = cfg.get("_size") is not None
+    ctx.inline.update(getattr(c, "inline_callees", ()) or ())
+    ex = Executor(ctx)
+    st = State()
+    st.ex = ex
+    fnode, module = c.load(ctx)
+    env = {}
+    for pname, spec in c.params.items():
+        env[pname] = cfg[pname] if pname in cfg else make_value(ex, st, spec, pname)
+    c.setup(ex, st, cfg)
+    env["$module"] = module
+    st.frames = [env]
+    entry_env = {k: v for k, v in env.items() if not k.startswith("$")}
+    entry_state = st.fork()
+    with spec_context(ex, st):
+        req = normalise_clauses(ex, st, c.requires(NS(st, entry_env)))
+    for cname, cond in req.items():
+        st.assume(cond)
+    ex.func_stack.append((short,))
+    outs = ex.exec_block(fnode.body, st)
+    ex.func_stack.pop()
+    rets = []
+    for o in outs:
+        if o.kind == "normal":
+            o = Outcome("return", o.state, None)
+        if o.kind == "return":
+            rets.append(o)
+    return ctx, ex, entry_env, entry_state, rets, module
+
+
+def verify_relational(c, cfg_label, cfg, repo_src, registry=None, snapshot_root=None) -> RunResult:
+    registry = registry if registry is not None else REGISTRY
+    rr = RunResult()
+    rr.contract = c
+    rr.config = (cfg_label, cfg)
+    try:
+        ctx1, ex1, env1, entry1, rets1, module = _one_run(c, cfg_label, cfg, repo_src, registry, snapshot_root, "")
+        ctx2, ex2, env2, entry2, rets2, _ = _one_run(c, cfg_label, cfg, repo_src, registry, snapshot_root, "r2:")
+        rr.ctx = ctx1
+        rr.source_file = module.__file__
+        ctx1.obligations = []
+        ctx1.names_seen = {}
+        n = 0
+        for o1 in rets1:
+            for o2 in rets2:
+                n += 1
+                st = State()
+                st.ex = ex1
+                st.pc = list(o1.state.pc) + list(o2.state.pc)
+                with spec_context(ex1, st):
+                    rel = normalise_clauses(ex1, st, c.relate(NS(entry1, env1), NS(entry2, env2)))
+                for cname, cond in rel.items():
+                    st.assume(cond)
+                with spec_context(ex1, st):
+                    ens = normalise_clauses(ex1, st, c.ensures_rel(
+                        NS(o1.state, env1, old=NS(entry1, env1)), NS(o2.state, env2, old=NS(entry2, env2)),
+                        _wrap_result(o1.value, o1.state), _wrap_result(o2.value, o2.state)))
+                for cname, cond in ens.items():
+                    ctx1.add_obligation(st, "post", cname, cond, meta={"pair": n})
+                ctx1.add_obligation(st, "canary", f"exit{n}", z3.BoolVal(False), meta={"pair": n})
+                rr.exits["return"] += 1
+        ctx1.global_axioms = list(ctx1.global_axioms) + list(ctx2.global_axioms)
+        ctx1.inputs.update(ctx2.inputs)
+        for k in ("let_def_ids",):
+            ctx1.__dict__.setdefault(k, set()).update(ctx2.__dict__.get(k, set()))
+        ctx1.stats["relational_pairs"] = n
+    except Unsupported as e:
+        rr.unsupported = str(e)
+        if rr.ctx is None:
+            rr.ctx = Ctx(repo_src, registry)
+    rr.obligations = rr.ctx.obligations
+    return rr
+
+
 def verify_contract(c: Contract, cfg_label: str, cfg: dict, repo_src: str, registry=None, snapshot_root=None,
                     ensure_filter=None) -> RunResult:
+    if isinstance(c, Relational):
+        return verify_relational(c, cfg_label, cfg, repo_src, registry, snapshot_root)
+    return _verify_contract(c, cfg_label, cfg, repo_src, registry, snapshot_root, ensure_filter)
+
+
+def _verify_contract(c: Contract, cfg_label: str, cfg: dict, repo_src: str, registry=None, snapshot_root=None,
+                     ensure_filter=None) -> RunResult:
     """symbolically execute the real function under contract c in configuration cfg and collect obligations"""
     registry = registry if registry is not None else REGISTRY
     short = c.key.split("::")[-1]
-    ctx = Ctx(repo_src, registry, func_label=short, config_label=cfg_label)
+    ctx = Ctx(repo_src, registry, func_label=getattr(c, "label", short), config_label=cfg_label)
     ctx.current_contract = c
     ctx.snapshot_root = snapshot_root
     ctx.config = cfg
@@ -339,6 +444,7 @@ def verify_contract(c: Contract, cfg_label: str, cfg: dict, repo_src: str, regis
     ctx.inline.update(getattr(c, "inline_callees", ()) or ())
     ex = Executor(ctx)
     st = State()
+    st.ex = ex
     rr = RunResult()
     rr.ctx = ctx
     rr.contract = c
